@@ -717,6 +717,10 @@ def _variant_texts(ctx, texts):
         ("set", "set 10 = 5 thru 9,\n\n  11\n"),
         ("set", "SET 11 = 1, 2,,\n3\n"),  # several trailing commas: rstrip(",") removes them all
         ("set", "SET 12 = 4 THRU 6,,, \n 9,\n10\n"),
+        # EXCEPT is not supported by the reader: after a THRU it is silently ignored (re.search finds the THRU and the rest
+        # of the item is dropped: the excepted ids stay in the set), on its own it is a ValueError
+        ("set", "SET 13 = 1 THRU 10 EXCEPT 5, 20\n"), ("set", "SET 14 = 1, EXCEPT 3\n"),
+        ("set", "SET 15 = 1 THRU 10 EXCEPT 3 THRU 5\n"), ("set", "SET 16 = ALL\n"),
         ("extrn", "EXTRN,3,123456,11\n"),  # odd number of values
         ("extrn", "EXTRN          3  123456      11  123456 $ c\n"),
         ("spoint", "SPOINT*              980            thru            1004\n"),
@@ -1732,8 +1736,23 @@ def _o_ids(kind, case):
             return ("wtset-line-too-long", "a SET line exceeds max_length", max(len(l) for l in text.split("\n")), case["max_length"])
         got = _read(bulk.rdsets, text)
         want = {case["setid"]: list(ids)}
-        if got != want:
+        # the tokens of the statement, restated here: the head, one token per maximal run ("a THRU b" for >= 2 ids), all but
+        # the last followed by ", ".  The round trip holds EXACTLY when no token is longer than max_length (a longer
+        # token is cut into pieces: the line that ends inside it closes the set, or the head no longer matches)
+        toks, i = ["SET %d = " % case["setid"]], 0
+        while i < len(ids):
+            j = i
+            while j + 1 < len(ids) and ids[j + 1] == ids[j] + 1:
+                j += 1
+            toks.append(("%d THRU %d" % (ids[i], ids[j]) if j > i else "%d" % ids[i]) + ", ")
+            i = j + 1
+        toks[-1] = toks[-1][:-2]
+        fits = all(len(t) <= case["max_length"] for t in toks)
+        if fits and got != want:
             return ("set-roundtrip", "rdsets(wtset(ids)) differs from ids", got if isinstance(got, str) else {k: v[:30] for k, v in got.items()}, want)
+        if not fits and got == want:
+            return ("set-roundtrip-with-split-token", "a token longer than max_length was cut into pieces and the set was still read "
+                    "back: the stated condition (round trip iff every token fits) is not exact", text[:200], "a different result")
     elif kind == "spoint":
         text = _write(bulk.wtspoints, ids)
         if text.startswith("error"):
@@ -2362,6 +2381,30 @@ def _o_multi(case):
     return None
 
 
+def _o_e3(case):
+    """a NEGATIVE value whose decimal exponent has three digits (|x| >= 1e100 or < 1e-99): '{:16.9E}' needs 17 characters.
+    wtdmig / wttabled1 (default form) then write an over-long field and the reader returns a different number"""
+    import pandas as pd
+
+    bulk = _bulk()
+    x = case["x"]
+    if case["writer"] == "wtdmig":
+        ind = pd.MultiIndex.from_tuples([(1, 1), (1, 2)], names=["id", "dof"])
+        a = np.array([[x, 0.0], [0.0, 1.0]])
+        text = _write(bulk.wtdmig, {"k": pd.DataFrame(a, index=ind, columns=ind)})
+        got = _read(bulk.rddmig, text)
+        y = None if isinstance(got, str) else float(got["k"].values[0, 0])
+    else:
+        text = _write(bulk.wttabled1, 1, [0.0, 1.0], [x, 1.0])
+        got = _read(bulk.rdtabled1, text)
+        y = None if isinstance(got, str) or got[1].shape != (2, 2) else float(got[1][0, 1])
+    if y is None or abs(y - x) > 5.05e-10 * abs(x):
+        return ("%s-negative-value-three-digit-exponent-overflows-field" % case["writer"],
+                "%s writes %r with '{:16.9E}' as a 17-character field (max line %d columns); read back: %r"
+                % (case["writer"], x, max(len(l) for l in text.split("\n")), y if y is not None else str(got)[:80]), y, x)
+    return None
+
+
 def _gen_oracle_cases(ctx):
     rng = ctx.rng
     cases = []
@@ -2377,6 +2420,9 @@ def _gen_oracle_cases(ctx):
         cases.append(("extrn", {"ids": ids, "dof": [123456 if i % 3 else 0 for i in ids]}))
         cases.append(("spoint", {"ids": ids}))
         cases.append(("set", {"setid": 7, "ids": ids, "max_length": 72}))
+    for mx in range(2, 27):
+        for ids in ([7], [1, 2, 3], [5, 9, 10, 11, 300], [12345678, 12345679], [3, 3, 2, 1], [10, 11, 13, 14, 15, 99999999]):
+            cases.append(("set", {"setid": rng.choice([1, 77, 12345]), "ids": ids, "max_length": mx}))
     for n in range(0, 14):
         for form, _ in FORMS:
             t, d = _gen_table(rng, n)
@@ -2393,7 +2439,8 @@ def _gen_oracle_cases(ctx):
         elif k == "spoint":
             cases.append((k, {"ids": ids}))
         else:
-            cases.append((k, {"setid": rng.randint(1, 99999), "ids": ids, "max_length": rng.choice([72, 72, 60, 40, 30, 24])}))
+            cases.append((k, {"setid": rng.randint(1, 99999), "ids": ids,
+                              "max_length": rng.choice([72, 72, 60, 40, 30, 24, 20, 16, 13, 12, 11, 10, 9, 8, 7, 6, 5, 4, 3, 2])}))
     for _ in range(ctx.pick(150, 1500)):
         form, _w = FORMS[rng.randrange(3)]
         n = rng.randint(1, 25)
@@ -2514,6 +2561,10 @@ def _gen_oracle_cases(ctx):
         if c is not None:
             cases.append(("cordchain", c))
             ctx.count("oracle:cordchain:depth=%d:%s" % (min(c["depth"], 4), c["order"]))
+    # magnitudes at the edge of what the field holds: three-digit exponents, positive (16 characters) and negative (17)
+    for w in ("wtdmig", "wttabled1"):
+        for x in (1e100, 2.5e-120, -1e99, -3e-99, -1e100, -2.5e-120):
+            cases.append(("e3", {"writer": w, "x": x}))
     # one file, several readers
     for _ in range(ctx.pick(60, 600)):
         text, _segs, own, sets = _gen_multi_file(rng)
@@ -2546,7 +2597,7 @@ def _hint_cases(hints):
                 out.append(("extrn", {"ids": inp["ids"], "dof": inp["dof"]}))
             elif st == "wtspoints" and inp["spoints"]:
                 out.append(("spoint", {"ids": inp["spoints"]}))
-            elif st == "wtset" and inp["max_length"] >= 24:
+            elif st == "wtset" and inp["max_length"] >= 2:
                 out.append(("set", inp))
             elif st == "find_sequence" and inp["seq"]:
                 out.append(("set", {"setid": 1, "ids": inp["seq"], "max_length": 72}))
@@ -2607,10 +2658,16 @@ def _run_oracle_case(kind, case, known):
     if kind == "multi":
         r = _o_multi(case)
         return [r] if r else []
+    if kind == "e3":
+        r = _o_e3(case)
+        return [r] if r else []
     return []
 
 
-UNLISTED_OK = set()
+# defect families proposed in a report but not (yet) listed in known_findings.json.  Empty by default: a new genuine
+# failing input is a VIOLATION until the integrator lists it.  (C13_QUIET=<family>,<family> moves families here for a
+# development run — sensitivity trials on a mutated tree — so that they are recorded in the evidence only.)
+UNLISTED_OK = set(f for f in os.environ.get("C13_QUIET", "").split(",") if f)
 
 
 def search(ctx, hints):
